@@ -25,7 +25,7 @@ def run(ctx):
     rng = ctx.rng
     ctx.rule = ("(i) general_simplicial_set_union / _intersection (both right_complement settings, weights .3/.5/.7) and "
                 "reset_local_connectivity (with and without local-metric reset) on random symmetric fuzzy graphs vs the Lean model; "
-                "(ii) real A+B, A*B, A-B for pairs of fits over the same samples (different feature views, metrics, n_neighbors): "
+                "(ii) real A+B, A*B, A-B for pairs of fits over the same samples (different feature views, metrics, n_neighbors, and identical sparsity patterns with different strengths): "
                 "symmetric, entries in [0,1], unit edge per non-isolated sample, support within the union (within A for A-B), finite "
                 "embedding of the right shape, A+B vs B+A byte-identical graphs, and the error cases (different sizes, unfitted); "
                 "non-trivial = the operands' supports differ")
@@ -93,7 +93,12 @@ def run(ctx):
         ka, kb = int(rng.integers(4, 9)), int(rng.integers(8, 14))
         ma = str(rng.choice(["euclidean", "manhattan"]))
         mb = str(rng.choice(["euclidean", "cosine", "chebyshev"]))
-        if t % 3 == 0:
+        if t % 3 == 2:
+            # same view and neighbours, different strengths: the two graphs have an identical sparsity pattern
+            A = umap.UMAP(n_neighbors=ka, metric=ma, random_state=1, n_epochs=11).fit(X)
+            B = umap.UMAP(n_neighbors=ka, metric=ma, random_state=2, n_epochs=11, set_op_mix_ratio=0.5).fit(X)
+            kb, mb = ka, ma
+        elif t % 3 == 0:
             # tiny neighbourhoods in A, all of which have full strength in B (same view, larger k):
             # A - B then holds rows consisting only of stored zeros
             ka, kb, ma, mb = int(rng.choice([2, 3])), 12, "euclidean", "euclidean"
@@ -103,7 +108,8 @@ def run(ctx):
             A = umap.UMAP(n_neighbors=ka, metric=ma, random_state=1, n_epochs=11).fit(X[:, :3])
             B = umap.UMAP(n_neighbors=kb, metric=mb, random_state=2, n_epochs=11).fit(X[:, 2:])
         ga, gb = sparse_to_dict(A.graph_), sparse_to_dict(B.graph_)
-        case = {"n": n, "ka": ka, "kb": kb, "metric_a": ma, "metric_b": mb}
+        ga0, gb0 = dict(ga), dict(gb)
+        case = {"n": n, "ka": ka, "kb": kb, "metric_a": ma, "metric_b": mb, "pair": ["full-in-B", "different-views", "same-pattern"][t % 3]}
         for opn, fn in (("add", lambda p, q: p + q), ("mul", lambda p, q: p * q), ("sub", lambda p, q: p - q)):
             try:
                 R = fn(A, B)
@@ -138,6 +144,9 @@ def run(ctx):
             if E.shape != (n, 2) or not np.all(np.isfinite(E)):
                 ctx.violation("embedding", f"({opn}) embedding shape {E.shape}, finite = {bool(np.all(np.isfinite(E)))}", c)
             ctx.case(key=opn + str(case) + str(t), nontrivial=set(ga) != set(gb), sample=c if len(ctx.samples) < 4 else None, part="combine", op=opn)
+        # the operands themselves are the reference for every clause above: they must not have drifted
+        if sparse_to_dict(A.graph_) != ga0 or sparse_to_dict(B.graph_) != gb0:
+            ctx.violation("operands", "an operand's graph_ changed while the models were being combined", case)
         r1, r2 = (A + B).graph_.tocsr(), (B + A).graph_.tocsr()
         r1.sort_indices(); r2.sort_indices()
         if sha(r1.data, r1.indices, r1.indptr) != sha(r2.data, r2.indices, r2.indptr):
